@@ -355,51 +355,16 @@ func (e *Engine) call(fn *ssa.Function, s *St, in *ssa.Call, ip int) (next []suc
 		h, _ := isConstBytes(args[0].(BytesV))
 		return set(IntV{gasOf(s.State, h)})
 	case ipfx + "native/gas.Transfer":
-		from, _ := isConstBytes(args[0].(BytesV))
-		to, _ := isConstBytes(args[1].(BytesV))
-		amt := args[2].(IntV).t
-		// native NEP-17 transfer: negative amount faults; needs the witness of `from` (the calling contract
-		// counts) and funds; on success the receiver contract's onNEP17Payment runs with caller = GAS
-		if neg := Lt(amt, I(0)); !(neg.isC() && !neg.b) && e.feasible(s.State, neg) {
-			fin = append(fin, Out{s.fork(neg), true, constBytes("negative amount")})
-			s.State.pc = And(s.pc, Not(neg))
-		}
-		wit := B(from == string(e.world.hashOf(e.names[e.cur])))
-		for _, sg := range e.signers {
-			wit = Or(wit, And(sg.present, bytesEq(sg.hash, constBytes(from).b)))
-		}
-		okT := And(wit, Le(amt, gasOf(s.State, from)))
-		var res []succ
-		if e.feasible(s.State, Not(okT)) {
-			st := &St{State: s.fork(Not(okT)), blk: s.blk, ip: ip + 1, env: cloneEnv(s.env)}
-			st.env[in] = BoolV{tFalse}
-			res = append(res, succ{st, nil})
-		}
-		if !e.feasible(s.State, okT) {
-			return res, fin, false
-		}
-		s.State.pc = And(s.pc, okT)
-		s.State.gas[from] = Sub(gasOf(s.State, from), amt)
-		s.State.gas[to] = Add(gasOf(s.State, to), amt)
-		recv := -1
-		for i, n := range e.names {
-			if string(e.world.hashOf(n)) == to {
-				recv = i
-			}
-		}
-		if recv < 0 {
-			s.env[in] = BoolV{tTrue}
-			res = append(res, succ{&St{State: s.State, blk: s.blk, ip: ip + 1, env: s.env}, nil})
-			return res, fin, false
-		}
-		prevCur := e.cur
-		e.callers = append(e.callers, -2)
-		e.cur = recv
-		outs := e.runFrame(e.linked[e.names[recv]].Func("OnNEP17Payment"), []Value{args[0], args[2], args[3]}, s.State)
-		e.cur = prevCur
-		e.callers = e.callers[:len(e.callers)-1]
-		n2, f2 := e.continueWith(s, in, ip, outs, func(o Out) (Value, bool) { return BoolV{tTrue}, o.panicked })
-		return append(res, n2...), append(fin, f2...), false
+		n2, f2 := e.gasTransfer(s, in, ip, args[0], args[1], args[2], args[3], true, func(ok bool) Value { return BoolV{B(ok)} })
+		return n2, f2, false
+	case ipfx + "runtime.GetScriptContainer":
+		e.fresh++
+		txh := e.namedBytes(fmt.Sprintf("txhash%d", e.fresh), 32)
+		hiddenTags[fmt.Sprintf("txhash%d", e.fresh)] = true
+		tx := StructV{[]Value{txh, IntV{I(0)}, IntV{I(0)}, constBytes(string(e.world.payer.ScriptHash().BytesBE())), IntV{I(0)}, IntV{I(0)}, IntV{I(0)}, BytesV{nil}}}
+		return set(PtrV{id: e.alloc(s.State, CellObj{tx})})
+	case ipfx + "runtime.GetNetwork":
+		return set(IntV{I(42)}) // netmode.UnitTestNet, the magic of the replay chain
 	case ipfx + "runtime.GetTime":
 		return set(IntV{e.txTime})
 	case ipfx + "runtime.BurnGas":
@@ -1143,4 +1108,78 @@ func (e *Engine) knownKeys() [][]byte {
 		ks = append(ks, a.PublicKey().Bytes())
 	}
 	return ks
+}
+
+
+// gasTransfer: native GAS NEP-17 transfer. Negative amounts and malformed accounts fault; without the
+// witness of `from` (the calling contract counts) or without funds it returns false; on success the ledger
+// moves, GAS emits Transfer and the receiver contract's onNEP17Payment runs with caller = GAS.
+func (e *Engine) gasTransfer(s *St, in ssa.Value, ip int, fromV, toV, amtV, dataV Value, viaContract bool, wrap func(bool) Value) ([]succ, []Out) {
+	var fin []Out
+	fb, ok1 := fromV.(BytesV)
+	tb, ok2 := toV.(BytesV)
+	if !ok1 || !ok2 || len(fb.b) != 20 || len(tb.b) != 20 {
+		return nil, []Out{{s.State, true, constBytes("invalid account")}}
+	}
+	from, okf := isConstBytes(fb)
+	to, okt := isConstBytes(tb)
+	if !okf || !okt {
+		panic("GAS transfer between symbolic accounts")
+	}
+	amt := amtV.(IntV).t
+	if neg := Lt(amt, I(0)); !(neg.isC() && !neg.b) && e.feasible(s.State, neg) {
+		fin = append(fin, Out{s.fork(neg), true, constBytes("negative amount")})
+		s.State.pc = And(s.pc, Not(neg))
+		if !e.feasible(s.State, tTrue) {
+			return nil, fin
+		}
+	}
+	wit := tFalse
+	if viaContract {
+		wit = B(from == string(e.world.hashOf(e.names[e.cur])))
+	}
+	for _, sg := range e.signers {
+		wit = Or(wit, And(sg.present, bytesEq(sg.hash, fb.b)))
+	}
+	okT := And(wit, Le(amt, gasOf(s.State, from)))
+	var res []succ
+	if e.feasible(s.State, Not(okT)) {
+		st := &St{State: s.fork(Not(okT)), blk: s.blk, ip: ip + 1, env: cloneEnv(s.env)}
+		st.env[in] = wrap(false)
+		res = append(res, succ{st, nil})
+	}
+	if !e.feasible(s.State, okT) {
+		return res, fin
+	}
+	s.State.pc = And(s.pc, okT)
+	s.State.gas[from] = Sub(gasOf(s.State, from), amt)
+	s.State.gas[to] = Add(gasOf(s.State, to), amt)
+	cnt := 1
+	if s.notifs != nil {
+		cnt = s.notifs.cnt + 1
+	}
+	s.State.notifs = &notifNode{prev: s.notifs, n: notif{-3, "Transfer", []Value{fb, tb, IntV{amt}}}, cnt: cnt}
+	recv := -1
+	for i, n := range e.names {
+		if string(e.world.hashOf(n)) == to {
+			recv = i
+		}
+	}
+	if recv < 0 {
+		s.env[in] = wrap(true)
+		res = append(res, succ{&St{State: s.State, blk: s.blk, ip: ip + 1, env: s.env}, nil})
+		return res, fin
+	}
+	target := e.linked[e.names[recv]].Func("OnNEP17Payment")
+	if target == nil { // a contract without the call-back cannot receive tokens
+		return res, append(fin, Out{s.State, true, constBytes("method not found: onNEP17Payment")})
+	}
+	prevCur, prevRO := e.cur, e.roDepth
+	e.callers = append(e.callers, -2)
+	e.cur, e.roDepth = recv, 0
+	outs := e.runFrame(target, []Value{fromV, amtV, dataV}, s.State)
+	e.cur, e.roDepth = prevCur, prevRO
+	e.callers = e.callers[:len(e.callers)-1]
+	n2, f2 := e.continueWith(s, in, ip, outs, func(o Out) (Value, bool) { return wrap(true), o.panicked })
+	return append(res, n2...), append(fin, f2...)
 }
